@@ -110,6 +110,95 @@ def fold_kernel(call_fn, schema):
             "la": f.env.get("la"), "lb": f.env.get("lb"), "lm": f.env.get("lm")}
 
 
+class SymSeq(object):
+    """an indexable object known only by name: x[k] is the token 'name[k]'"""
+    def __init__(self, name):
+        self.name = name
+
+    def __getitem__(self, k):
+        t = Token("sym", "%s[%r]" % (self.name, k), "%s[%r]" % (self.name, k))
+        t.rf = None
+        return t
+
+
+def fold_arguments(call_fn, schema):
+    """Fold what the generated kernel is called with: the positional arguments of gen(..) in the final return, as
+    texts (iter(seq), memory, zero, iter(self.numpoly[k]) ...), for one schema."""
+    zero = Token("generic", "zero", "zero")
+    zero.rf = RF.sym("zero")
+    selfobj = Obj("self", {
+        "numdict": OrderedDict(schema.num), "dendict": OrderedDict(schema.den),
+        "numerator": schema.coeff_list(schema.num), "denominator": schema.coeff_list(schema.den),
+        "numlist": schema.coeff_list(schema.num), "denlist": schema.coeff_list(schema.den),
+        "numpoly": SymSeq("self.numpoly"), "denpoly": SymSeq("self.denpoly"),
+    })
+
+    def isinst(value, what):
+        if what in ("Iterable", "Stream"):
+            return isinstance(value, Token) and value.cls == "stream"
+        raise Inconclusive("isinstance(_, %s) while folding the kernel call" % what)
+
+    def hook(folder, e):
+        if isinstance(e.func, ast.Name) and e.func.id == "iter" and len(e.args) == 1 and not e.keywords:
+            v = folder.ev(e.args[0])
+            if isinstance(v, Token):
+                t = Token("sym", "iter(%s)" % v.text, "iter")
+                t.rf = None
+                return t
+            raise Inconclusive("iter() of %r" % (v,))
+        return NotImplemented
+    seq = Token("sym", "seq", "seq")
+    mem = Token("sym", "memory", "memory")
+    f = Folder({"self": selfobj, "zero": zero, "seq": seq, "memory": mem}, isinstance_hook=isinst, call_hook=hook)
+    body = docstring_free(call_fn.body)
+    last = body[-1]
+    if not (isinstance(last, ast.Return) and isinstance(last.value, ast.Call) and len(last.value.args) == 1
+            and isinstance(last.value.args[0], ast.Call)):
+        raise Inconclusive("final return is not <wrapper>(gen(...))")
+    gcall = last.value.args[0]
+    # names feeding the call
+    feed = {n.id for n in ast.walk(gcall) if isinstance(n, ast.Name)} - {"seq", "memory", "zero", "self", "gen", "iter"}
+    tracked = set(_tracked_closure(call_fn)) | feed
+    changed = True
+    assigned = {}
+    for n in ast.walk(call_fn):
+        if isinstance(n, (ast.Assign, ast.AugAssign)):
+            for t in (n.targets if isinstance(n, ast.Assign) else [n.target]):
+                for x in ast.walk(t):
+                    if isinstance(x, ast.Name):
+                        assigned.setdefault(x.id, []).append(n)
+        elif isinstance(n, ast.Expr) and isinstance(n.value, ast.Call) and isinstance(n.value.func, ast.Attribute) \
+                and n.value.func.attr in ("append", "extend", "insert") and isinstance(n.value.func.value, ast.Name):
+            assigned.setdefault(n.value.func.value.id, []).append(n)
+    while changed:
+        changed = False
+        for name in list(tracked):
+            for st in assigned.get(name, []):
+                for x in ast.walk(st.value):
+                    if isinstance(x, ast.Name) and x.id in assigned and x.id not in tracked \
+                            and x.id not in ("seq", "memory", "zero", "self", "tw", "actual_len", "gen"):
+                        tracked.add(x.id)
+                        changed = True
+    r = f.run(body[:-1], tracked)
+    if r is not None:
+        raise Inconclusive("kernel builder returned/raised while folding: %r" % (r,))
+    args = []
+    for a in gcall.args:
+        if isinstance(a, ast.Starred):
+            v = f.ev(a.value)
+            if not isinstance(v, (list, tuple)):
+                raise Inconclusive("star-argument is not a list")
+            args.extend(v)
+        else:
+            args.append(f.ev(a))
+    if gcall.keywords:
+        raise Inconclusive("keyword arguments in the kernel call")
+    texts = [x.text if isinstance(x, Token) else repr(x) for x in args]
+    return {"wrapper": unparse(last.value.func), "callee": unparse(gcall.func), "args": texts,
+            "arg_names": f.env.get("arg_names"), "num_iterables": f.env.get("num_iterables"),
+            "den_iterables": f.env.get("den_iterables")}
+
+
 _CLOSURE = {}
 
 
